@@ -340,6 +340,18 @@ class EntitySubstitution(object):
             or cls.SEMICOLON_OPTIONAL_ENTITY_RE.match(s, after)
         ):
             return "&amp;"
+        if name is not None and name.end() == len(s):
+            # The name runs to the end of the string. If that is also
+            # the end of the document, html.parser gives part of it
+            # back: it reads "&Lt-x" as "&Lt" followed by "-x", and it
+            # swallows the ampersand of "&x".
+            run = name.group(0)
+            cut = max(run.rfind("-"), run.rfind("."))
+            if cut < 0:
+                if len(run) == 1:
+                    return "&amp;"
+            elif run[:cut] in cls.HTML_ENTITY_TO_CHARACTER:
+                return "&amp;"
         return "&"
 
     @classmethod
